@@ -102,6 +102,22 @@ def value_case(asm, acc, seed, idx):
         core.add_sample(acc, {'constant_definitions': lines, 'values': exp})
 
 
+def escaped_char_cases(asm, acc):
+    """a character literal written with a multi-character escape, directly followed by a comment that quotes something"""
+    for lit, v in [("'\\x41'", 65), ("'\\101'", 65), ("'\\u0041'", 65), ("'\\x7e'", 126), ("'\\n'", 10), ("'\\''", 39), ("'\\\\'", 92)]:
+        for tail in ['', "#'A'", " # 'A'", "#','", " #'", "  # '(' and ')'"]:
+            acc['n'] += 1
+            src = 'QE = %s%s\ndb QE\n' % (lit, tail)
+            o = monitors.observe(asm, src, tap=False)
+            acc['ntkeys'].add(core.ckey('echar', lit, tail))
+            acc['ctr']['escaped_char_literals'] += 1
+            case = {'kind': 'echar', 'src': src}
+            if not o.ok:
+                core.add_viol(acc, 'character literal constant %r is refused: %s: %s' % (src.splitlines()[0], o.exc['type'], o.exc['msg']), case, {})
+            elif o.constants.get('QE') != v or o.out != bytes([v]):
+                core.add_viol(acc, 'character literal constant %r evaluates to %r (expected %d); program bytes %s' % (src.splitlines()[0], o.constants.get('QE'), v, o.out.hex()), case, {})
+
+
 def char_case(asm, acc, ch):
     acc['n'] += 1
     case = {'kind': 'char', 'ch': ch}
@@ -227,6 +243,7 @@ def run_shard(sh, deadline):
     asm = core.load_asm()
     acc = core.new_acc()
     if sh['kind'] == 'char':
+        escaped_char_cases(asm, acc)
         for ch in PRINTABLE:
             char_case(asm, acc, ch)
         return acc
@@ -269,6 +286,8 @@ def replay(case):
         value_case(asm, acc, case['seed'], case['idx'])
     elif case['kind'] == 'char':
         char_case(asm, acc, case['ch'])
+    elif case['kind'] == 'echar':
+        escaped_char_cases(asm, acc)
     else:
         subst_case(asm, acc, case['seed'], case['idx'])
     return acc
